@@ -169,20 +169,37 @@ def skOK (sa sk : String) : Bool :=
         else false
     | _ => false
 
+def dtok (alg sa sk tm e n i : String) : Option (List (HSym DTok)) := do
+  let e' ← dclaim e
+  let n' ← dclaim n
+  let i' ← dclaim i
+  let tm' ← productFlag tm
+  if !(sigAlgs ++ ["none", "absent", "unk", "lc", "num"]).contains alg then none
+  else if !skOK sa sk then none
+  else some [.tok { alg := alg, sa := sa, sk := sk, tm := tm', claims := { exp := e', nbf := n', iat := i' } }]
+
+def mangleKinds : List String := ["dot", "eq1", "eq2", "lf", "lfm", "bits1", "bits2", "bits3", "cpad"]
+
+/-- signature lengths: HS256 43, HS384 64, HS512 86, RS* (1024-bit key) 171 base64url characters -/
+def mangleOK (sa mg : String) : Bool :=
+  if mg == "eq1" then sa != "HS384"
+  else if mg == "eq2" then sa == "HS512"
+  else if mg == "bits1" || mg == "bits2" || mg == "bits3" then sa != "HS384"
+  else false
+
 /-- token description ⇒ header symbols of the token part -/
 def dtoken (s : String) : Option (List (HSym DTok)) :=
   match s.splitOn "." with
   | ["g", hx] => do
     let g ← unhex hx
     if (g.filter (· == 46)).length == 2 then none else some (g.map HSym.ch)
-  | ["t", alg, sa, sk, tm, e, n, i] => do
-    let e' ← dclaim e
-    let n' ← dclaim n
-    let i' ← dclaim i
-    let tm' ← productFlag tm
-    if !(sigAlgs ++ ["none", "absent", "unk", "lc", "num"]).contains alg then none
-    else if !skOK sa sk then none
-    else some [.tok { alg := alg, sa := sa, sk := sk, tm := tm', claims := { exp := e', nbf := n', iat := i' } }]
+  | ["t", alg, sa, sk, tm, e, n, i] => dtok alg sa sk tm e n i
+  | ["t", alg, sa, sk, tm, e, n, i, mg] => do
+    let t ← dtok alg sa sk tm e n i
+    if !sigAlgs.contains sa || !mangleKinds.contains mg then none
+    -- another spelling of the same compact JWS: jwt-go's DecodeSegment (padding re-added, non-strict
+    -- URLEncoding) either yields the same signature bytes or fails (contract, exercised)
+    else if mangleOK sa mg then some t else some [.ch 1]
   | _ => none
 
 def idealVerifyJws (k : DKey) (t : DTok) : Bool :=
@@ -206,7 +223,8 @@ def jwtHeader (s : String) : Option (List (HSym DTok)) :=
       let p ← unhex pre
       let q ← unhex suf
       let t ← dtoken tok
-      if (!p.isEmpty && p.getLast? != some 32) || (!q.isEmpty && q.head? != some 32) then none
+      if (!p.isEmpty && p.getLast? != some 32 && p.getLast? != some 9) ||
+         (!q.isEmpty && q.head? != some 32 && q.head? != some 9 && q.head? != some 46) then none
       else some (p.map HSym.ch ++ t ++ q.map HSym.ch)
     | _ => none
 
@@ -268,6 +286,7 @@ inductive PAtom where
 inductive Atom where
   | p (a : PAtom)
   | e (pre : List PAtom)   -- encode(pre)
+  | m                      -- a near miss of some encode(pre): another spelling, never the documented string
   | x                      -- encode of a string that itself contains a checksum (never equal to a given one)
   deriving DecidableEq
 
@@ -324,8 +343,29 @@ def plainAtom (restrict : Bool) (a : String) : Option (List PAtom) :=
       if offOK n then some [.t n] else none
     else none
 
+def canonNatIn (s : String) (lo hi : Nat) : Bool :=
+  match canonNat s with
+  | some n => lo ≤ n && n ≤ hi
+  | none => false
+
+def mangleKindOK (k : String) : Bool :=
+  if k.startsWith "sib" then canonNatIn (k.drop 3).toString 1 15
+  else if k.startsWith "ins" then
+    match (k.drop 3).toString.splitOn "x" with
+    | [p, b] => ["0", "11", "22"].contains p && ["0d", "0a", "20", "09"].contains b
+    | _ => false
+  else if k.startsWith "case" then canonNatIn (k.drop 4).toString 0 21
+  else ["pad1", "pad2", "std", "dpe"].contains k
+
 def symValue (v : String) : Option SStr :=
   if v == "-" then some []
+  else if v.startsWith "m" then
+    match (v.drop 1).toString.splitOn "!" with
+    | [k, pre] =>
+      if !mangleKindOK k || v.contains '.' then none
+      else if pre == "-" then some [.m]
+      else ((pre.splitOn "~").mapM (plainAtom false)).map fun _ => [Atom.m]
+    | _ => none
   else do
     let atoms := v.splitOn "."
     let parts ← atoms.mapM fun a =>
@@ -762,7 +802,12 @@ def runLoadKeys (f : List String) (impl : String) : Ans :=
           tags := ["lk", if accept then "lk-accept" else "lk-reject"] ++ (if ks.isEmpty then [] else ["nt"]) }
   | _ => bad
 
+def containsSub (s sub : String) : Bool := (s.splitOn sub).length > 1
+
 def run (op impl : String) : Ans :=
+  -- spellings that may coincide with the original for a particular checksum / token are refused by exec
+  if impl == "bad-op" && (containsSub op "=mstd!" || containsSub op "=mcase" || containsSub op ".cpad:") then bad
+  else
   match op.splitOn " " with
   | [kind, body] =>
     let f := body.splitOn "|"
